@@ -105,11 +105,15 @@ def check_case(case):
         preds = {p for p in graph.predecessors(node) if VARLIKE.match(p)}
         wname, woff = sub_ref.write(st)
 
-        def run(perturb=None):
+        def run(perturb=None, route='constructor'):
             vals = {k: v.copy() for k, v in data.items()}
-            if perturb:
+            if perturb and route == 'constructor':
                 vals[perturb[0]][t + perturb[1]] += 1.0
             m = M(range(n), **vals)
+            if perturb and route == 'item':
+                # the same perturbation made afterwards, in place, through the public item interface
+                m[perturb[0]][t + perturb[1]] += 1.0
+                vals[perturb[0]][t + perturb[1]] += 1.0
             log = []
             install(m, sub_ref.names, log)
             out = R.quiet_call(attempt, m._evaluate, t)
@@ -121,6 +125,7 @@ def check_case(case):
             rreads = {(nm, ix) for nm, ix, rw in rlog if rw == 'r'}
             return out, y, reads, rreads
 
+        nroute = 0
         base_out, y0, reads0, rreads0 = run()
         if not base_out.ok:
             res.tag('skipped:evaluate-raised')
@@ -135,7 +140,8 @@ def check_case(case):
                     continue
                 if (name, k) == (wname, woff):
                     continue   # the assigned cell itself is overwritten
-                out, y1, _, _ = run((name, k))
+                nroute += 1
+                out, y1, _, _ = run((name, k), route=('constructor', 'item')[nroute % 2])
                 if out.ok and not same_value(y0, y1):
                     res.fail('dynamic/influence-without-edge', f'{sub_text!r}: no edge {fmt(name, k)} -> {node} but perturbing '
                              f'that cell changes the result from {y0} to {y1}')
@@ -206,6 +212,12 @@ def gen_enumerated(max_nodes):
             yield {'prog': prog}
             if i % 5 == 0:
                 yield {'prog': prog, 'tape': [1 + (i // 5) % 3] * 6}       # other spacings of the same program
+        # a series whose name is another series' name with a leading underscore (the storage slot of X is called _X)
+        V = lambda n, o=None, k='v': ['var', n, k, o]  # noqa: E731
+        for a, b in (('_X', 'X'), ('_x1', 'x1'), ('__a', '_a')):
+            yield {'prog': [['assign', V('Y'), ['bin', '+', V(a, -1), V(b)]]]}
+            yield {'prog': [['assign', V('Y'), ['bin', '*', V(b, -1), V(a, 1)]]]}
+            yield {'prog': [['assign', V(a), ['bin', '+', V(b, -1), V(a, -1)]], ['assign', V('W'), ['bin', '-', V(a), V(b, 1)]]]}
     return gen
 
 
